@@ -44,9 +44,9 @@ def main(ctx, args):
     total = sum(8 ** i for i in range(lmax + 1))
     jobs = [dict(MODE="str", LO=a, HI=b) for a, b in split_range(0, total, NCPU * (1 if ctx.quick else 3))]
     alpha = [0x61, 0x7f, 0x80, 0xe9, 0x7ff, 0x800, 0x6f22, 0xffff, 0x10000, 0x1f600, 0x10ffff, 0x301, 0x627, 0x20]
-    rnd = [[rng.choice(alpha) for _ in range(rng.randint(6, 60 if ctx.quick else 200))]
-           for _ in range(200 if ctx.quick else 4000)]
-    per = max(1, len(rnd) // 4)
+    rnd = [[rng.choice(alpha) for _ in range(rng.randint(6, 60 if ctx.quick else 120))]
+           for _ in range(200 if ctx.quick else 1600)]
+    per = max(1, len(rnd) // (4 if ctx.quick else NCPU))
     for i in range(0, len(rnd), per):
         f = ctx.path("gen", "u8_%d.ndjson" % i)
         open(f, "w").write("".join(json.dumps(x) + "\n" for x in rnd[i:i + per]))
